@@ -23,6 +23,31 @@ func ConfigureStubs(in *gosym.Interp) {
 	in.Redirect["os/exec.Command"] = "vstubCommand"
 	in.Redirect["(*os/exec.Cmd).Run"] = "vstubCmdRun"
 	in.Redirect["os.Exit"] = "vstubExit"
+	// cmd/seccomp-profiler
+	pm := Module + "/cmd/seccomp-profiler"
+	in.Redirect["flag.Var"] = "vstubFlagVar"
+	in.Redirect["flag.Arg"] = "vstubFlagArg"
+	in.Redirect["log.Fatal"] = "vstubFatal"
+	in.Redirect["log.Fatalf"] = "vstubFatalf"
+	in.Redirect[pm+".getBinaryArch"] = "vstubGetBinaryArch"
+	in.Redirect[pm+".hashBinary"] = "vstubHashBinary"
+	in.Redirect[pm+".doObjdump"] = "vstubDoObjdump"
+	in.Redirect[Module+"/cmd/seccomp-profiler/disasm.ExtractSyscalls"] = "vstubExtractSyscalls"
+	in.Redirect[pm+".openOutput"] = "vstubOpenOutput"
+	in.Redirect[pm+".writeGoTemplate"] = "vstubWriteGoTemplate"
+	in.Redirect["gopkg.in/yaml.v2.Marshal"] = "vstubYAMLMarshal"
+	in.Redirect[pm+".cachedDumpFile"] = "vstubCachedDumpFile"
+	in.Redirect["os.Create"] = "vstubCreate"
+	in.Redirect["os.CreateTemp"] = "vstubCreateTemp"
+	in.Redirect["os.Rename"] = "vstubRename"
+	in.Redirect["os.Remove"] = "vstubRemove"
+	in.Redirect["(*os.File).Name"] = "vstubFileName"
+	in.Redirect["(*os.File).Read"] = "vstubFileRead"
+	in.Redirect["(*os.File).Write"] = "vstubFileWrite"
+	in.Redirect["(*os.File).Sync"] = "vstubFileSync"
+	in.Redirect["bufio.NewWriter"] = "vstubNewWriter"
+	in.Redirect["(*bufio.Writer).WriteString"] = "vstubWriteString"
+	in.Redirect["(*bufio.Writer).Flush"] = "vstubFlush"
 	// disasm
 	d := Module + "/cmd/seccomp-profiler/disasm"
 	in.Redirect["os.Open"] = "vstubOpen"
